@@ -56,6 +56,15 @@ func (m *Machine) OracleDoc() *oracle.Doc {
 					h.I = m.Ctx.BVC(64, uint64(int64(lo)))
 					h.F = m.Ctx.FPC(float64(lo))
 				}
+			} else if strings.HasPrefix(spec, "qc:") {
+				// concrete on this path (case split by the harness)
+				v, _ := strconv.Atoi(ps.Inputs[name])
+				h.F = m.Ctx.FPC(float64(v) / 4)
+			} else if strings.HasPrefix(spec, "q:") {
+				f := strings.Split(spec, ":")
+				lo, _ := strconv.Atoi(f[1])
+				hi, _ := strconv.Atoi(f[2])
+				h.F = m.Ctx.FpBin(sym.OFpDiv, m.Ctx.FpFromSBV(m.Ctx.IntVar(name, int64(lo), int64(hi))), m.Ctx.FPC(4))
 			} else {
 				h.F = m.Ctx.Var(name, sym.FP)
 			}
